@@ -54,15 +54,12 @@ def codegenBlk (H : Hier) (pay : Payload) : Nat → CG → Blk → M (List S × 
           let t1 ← lookupScoped H cg.stack (b.jt[1]!)
           let (orelse, cg) ← codegenBlk H pay f cg t1
           pure ((tree.dropLast.map instrToS) ++ [.ifS test body orelse], cg)
-      else match tree.getLast? with
-        | none => .error ⟨"IndexError", "codegen"⟩
-        | some last =>
-          if b.jts.length == 1 then
-            match last with
-            | .s (.ret v) => pure ((tree.dropLast.map instrToS) ++ [.assign retVar v], cg)
-            | _ => pure (tree.map instrToS, cg)
-          else if b.jt.isEmpty then pure (tree.map instrToS, cg)
-          else .error ⟨"NotImplementedError", "codegen"⟩
+      else if b.jts.length == 1 then
+        match tree.getLast? with
+        | some (.s (.ret v)) => pure ((tree.dropLast.map instrToS) ++ [.assign retVar v], cg)
+        | _ => pure (tree.map instrToS, cg)
+      else if b.jt.isEmpty then pure (tree.map instrToS, cg)
+      else .error ⟨"NotImplementedError", "codegen"⟩
     | .region =>
       let cg1 : CG := { cg with stack := b.name :: cg.stack }
       if b.rkind == "head" || b.rkind == "tail" || b.rkind == "branch" then do
